@@ -274,6 +274,49 @@ pub fn worker_abs(w: &mut WorkerCtx) {
             }
         }
     }
+    // histories that touch the stored working directory of a Memfs: whatever the cwd is afterwards, abs()
+    // still returns clean absolute text and is idempotent (reference-free laws; where the cwd ends up after
+    // its directory was moved or removed is not C05's business)
+    if w.shard == 0 {
+        type Hist = (&'static str, Vec<Op>);
+        let hists: Vec<Hist> = vec![
+            ("set_cwd(/d); move_p(/d, /e)", vec![Op::MkdirP("/d".into()), Op::SetCwd("/d".into()), Op::MoveP("/d".into(), "/e".into())]),
+            ("set_cwd(/d/s); move_p(/d, /e)", vec![Op::MkdirP("/d/s".into()), Op::SetCwd("/d/s".into()), Op::MoveP("/d".into(), "/e".into())]),
+            ("set_cwd(/d); move_p(/d, /t) into an existing directory", vec![Op::MkdirP("/d".into()), Op::MkdirP("/t".into()), Op::SetCwd("/d".into()), Op::MoveP("/d".into(), "/t".into())]),
+            ("set_cwd(/d); remove_all(/d)", vec![Op::MkdirP("/d".into()), Op::SetCwd("/d".into()), Op::RemoveAll("/d".into())]),
+            ("set_cwd(/d/); set_cwd(.)", vec![Op::MkdirP("/d".into()), Op::SetCwd("/d/".into()), Op::SetCwd(".".into())]),
+            ("set_cwd(/d); copy(/d, /e); set_cwd(../e)", vec![Op::MkdirP("/d".into()), Op::SetCwd("/d".into()), Op::Copy("/d".into(), "/e".into()), Op::SetCwd("../e".into())]),
+        ];
+        let walk = ["/", ".", "a"];
+        for (name, ops) in &hists {
+            let m = Memfs::new();
+            for op in ops {
+                let _ = apply(&m, op);
+            }
+            let mut buf = String::new();
+            for i in 0..count_upto(3, 5) {
+                nth_string(&walk, i, &mut buf);
+                let o = apply(&m, &Op::Abs(buf.clone()));
+                w.count("abs_after_cwd_history", 1);
+                if o.panicked() {
+                    w.vio("C05 abs panic after a cwd history", || format!("after {}: abs({:?}) panicked: {}", name, buf, o.msg), || J::Null);
+                    continue;
+                }
+                if !o.ok {
+                    continue;
+                }
+                let clean = crate::models::go_clean::go_clean(&o.val);
+                let again = apply(&m, &Op::Abs(o.val.clone()));
+                if !o.val.starts_with('/') || clean != o.val {
+                    let (n2, b2, v2) = (name.to_string(), buf.clone(), o.val.clone());
+                    w.vio("C05 abs result-not-clean after a cwd history", move || format!("after {}: abs({:?}) = {:?} (clean form {:?})", n2, b2, v2, clean), || J::Null);
+                } else if !again.ok || again.val != o.val {
+                    let (n2, b2, v2) = (name.to_string(), buf.clone(), o.val.clone());
+                    w.vio("C05 abs not-idempotent after a cwd history", move || format!("after {}: abs({:?}) = {:?} but abs of that = {}", n2, b2, v2, again.brief()), || J::Null);
+                }
+            }
+        }
+    }
     let _ = std::env::set_current_dir("/");
     drop(sb);
     for t in ["a", "./a/../b", "/x/y/../z"] {
